@@ -137,3 +137,24 @@ Example add_cmt_nonvacuous :
   /\ option_map (map r_admid) (match add_admid_impl mi ex3 with Ok l => Some l | Err _ => None end) = Some [1; 1; 1; 1; 1; 1].
 Proof. repeat split; vm_compute; reflexivity. Qed.
 
+(* second round: ex1 has an observation counted towards the preceding dose (DOSEIDs out of order) and is
+   inside the single guard; its TAD is the walk's *)
+Example tad_refines_full_nonvacuous :
+  guard_tad_walk ex1 = true /\ guard_tad_frame ex1 = false /\ has_addl (ds_sch ex1) = false
+  /\ option_map (map snd) (match tad_impl ex1 with Ok l => Some l | Err _ => None end) = Some (tad_walk ex1)
+  /\ tad_walk ex1 = [0; 0; 4; 0; 8; 4; 0; 4; 0; 4; 0; 2].
+Proof. repeat split; vm_compute; reflexivity. Qed.
+
+(* with ADDL: a dataset whose observation coincides with an implied dose *)
+Definition ex4 : dataset :=
+  mkDs (ds_sch ex2)
+       [mkRow 0 1 0 40 0 0 0 0 0 0 2 48 [280] []; mkRow 1 1 20 0 12 0 0 0 0 0 0 0 [280] [];
+        mkRow 2 1 48 0 16 0 0 0 0 0 0 0 [280] []; mkRow 3 1 100 0 20 0 0 0 0 0 0 0 [280] []].
+Example tad_refines_full_addl_nonvacuous :
+  guard_tad_walk ex4 = true /\ guard_tad_frame ex4 = false
+  /\ option_map (map snd) (match tad_impl ex4 with Ok l => Some l | Err _ => None end) = Some [0; 20; 48; 4].
+Proof. repeat split; vm_compute; reflexivity. Qed.
+
+Example obs_keep_nonvacuous : obs_keep_impl ex3 = [(1, 12); (2, 16); (5, 20)].
+Proof. vm_compute. reflexivity. Qed.
+
